@@ -23,6 +23,13 @@ func (oracleC09) Step(x *OCtx, t *Trans) []Violation {
 	H := t.Pre.H
 	add := func(clause, disc, detail string) { out = append(out, viol("C09", clause, kind, disc, detail)) }
 
+	// kills made by the owning module from inside a callback during this step (keeper API)
+	cbKilled := map[string]bool{}
+	for _, cb := range t.Res.Callbacks {
+		if cb.Kind == "kill" {
+			cbKilled[cb.Ctx] = true
+		}
+	}
 	// contexts that exist before the step
 	for _, id := range t.Pre.CtxIDs {
 		pc := t.Pre.Ctxs[id]
@@ -65,6 +72,9 @@ func (oracleC09) Step(x *OCtx, t *Trans) []Violation {
 				}
 			case ps == "paused" && qs == "running":
 				okTr = (kind == "start" || kind == "mstart") && t.Res.OK() && a.Ctx == id
+			case qs == "completed" && cbKilled[id]:
+				okTr = pc.Repeated
+				x.Wit("C09:killed-by-its-module-inside-a-callback")
 			case qs == "completed":
 				okTr = (kind == "kill" || kind == "mkill") && t.Res.OK() && a.Ctx == id && pc.Repeated
 				if (kind == "kill" || kind == "mkill") && t.Res.OK() && a.Ctx == id && !pc.Repeated {
@@ -76,11 +86,14 @@ func (oracleC09) Step(x *OCtx, t *Trans) []Violation {
 				add("only-allowed-state-transitions", ps+"->"+qs, fmt.Sprintf("context %s moved %s -> %s in a %s step", name, ps, qs, kind))
 			}
 		}
+		if cbKilled[id] && qs != "completed" {
+			add("completed-is-final", "kill-undone/"+qs, fmt.Sprintf("context %s was killed by its module during this step (the kill succeeded) but is %s afterwards", name, qs))
+		}
 		// a running context whose batch is due in this block either gets it (issued or skipped) or is paused for funds
 		if kind == "E" && ps == "running" {
 			if h, ok := t.Pre.NewH[id]; ok && h == H {
 				x.Wit("C09:running-context-with-batch-due")
-				if qc.BatchCounter == pc.BatchCounter && qs == "running" {
+				if qc.BatchCounter == pc.BatchCounter && qs == "running" && !cbKilled[id] {
 					add("due-batch-is-issued-skipped-or-context-paused", name, fmt.Sprintf("running context %s had a batch due at height %d: no batch, still running", name, H))
 				}
 			}
